@@ -317,7 +317,9 @@ class Gen:
         k = r.below(9)
         if k == 0:
             self.note("D.import")
-            return ["import", hexs(r.pick([b"core:text", b"lib/a.pn", b"x.pn", b""]))]
+            # paths with characters that a string literal must escape (the rebuilder has to write them escaped again)
+            return ["import", hexs(r.pick([b"core:text", b"lib/a.pn", b"x.pn", b"", b"a\\b.pn", b'a"b.pn', b"a\tb.pn",
+                                           "caf\u00e9/\u20ac.pn".encode(), b"it's.pn", b"\x01\x7f.pn", b"a\nb"]))]
         if k == 1:
             self.note("D.const")
             return ["const", "|".join(self.flags()) or "_", self.name("K"), self.ty("top", 1), self.expr()]
@@ -612,7 +614,8 @@ class Render:
     def decl(self, d):
         k = d[0]
         if k == "import":
-            self.emit("import", '"' + bytes.fromhex(d[1][1:]).decode() + '"', ";")
+            path = bytes.fromhex(d[1][1:])
+            self.emit("import", '"' + "".join(chr(b) if 32 <= b < 127 and b not in (34, 92) else "\\x%02x" % b for b in path) + '"', ";")
             return
         flags = [] if d[1] == "_" else d[1].split("|")
         if "Public" in flags:
